@@ -61,8 +61,10 @@ func (srv *Server) Serve(listen chan error) error {
 	srv.logger.Debug("Unix socket is listening", "addr", srv.addr)
 
 	defer func() {
+		// Closing the listener removes the socket file it created. The path
+		// must not be removed again afterwards: by then it may belong to the
+		// next run of the same DAG, which would become unreachable.
 		_ = srv.Shutdown()
-		_ = os.Remove(srv.addr)
 	}()
 	for {
 		conn, err := srv.listener.Accept()
